@@ -402,6 +402,25 @@ impl<Endpoint: Ord + Clone> BlockHandler<Endpoint> {
     }
 }
 
+#[cfg(coap_lite_verif)]
+impl<Endpoint: Ord + Clone> BlockHandler<Endpoint> {
+    /// Verification hook (read-only, does not refresh the entry's timestamp):
+    /// for the cache entry `request` maps to, the number of upload bytes
+    /// buffered so far and the length of the cached response body.  `None`
+    /// when there is no live entry for that key.
+    pub fn verif_peek(
+        &self,
+        request: &CoapRequest<Endpoint>,
+    ) -> Option<(Option<usize>, Option<usize>)> {
+        self.states.peek(&RequestCacheKey::from(request)).map(|state| {
+            (
+                state.cached_request_payload.as_ref().map(|p| p.len()),
+                state.cached_response.as_ref().map(|p| p.payload.len()),
+            )
+        })
+    }
+}
+
 /// Similar to [`Vec::splice`] except that the Vec's length may be extended to
 /// support the splice, but only up to an increase of `maximum_reserve_len`
 /// (for security reasons if the data you're receiving is untrusted ensure this
